@@ -12,6 +12,8 @@ fn slice_eq4(a: &[u8], b: &[u8; 4]) -> (r: bool)
 //@enditem
 //@item src/paged_reader.rs const MAX_PAGE_SIZE
 //@enditem
+/// the maximum page size of the real code, whatever constant expression it is written as (1024 * 1024, 1 << 20, 0x10_0000)
+proof fn const_max_page_size() ensures MAX_PAGE_SIZE == 0x10_0000 { assert(MAX_PAGE_SIZE == 0x10_0000) by (compute_only); }
 
 //@item src/paged_reader.rs struct PagedReader
 //@rw <T: Read \+ Seek> ==> <empty>
@@ -27,7 +29,7 @@ spec fn sealedn(pg: Seq<u8>, ps: int) -> bool { pg.len() == ps && pg.subrange(ps
 impl PagedReader {
     /// representation invariant, incl. the cache clause: a cached page is the device page and is sealed
     spec fn wf(&self) -> bool {
-        &&& 4 < self.page_size <= MAX_PAGE_SIZE
+        &&& 4 < self.page_size <= 0x10_0000   // == MAX_PAGE_SIZE, see const_max_page_size()
         &&& self.phy_file_size == self.reader.data@.len()
         &&& self.phy_file_size > 0
         &&& self.phy_file_size <= 0x7fff_ffff_ffff_ffff
@@ -61,6 +63,8 @@ impl PagedReader {
                 && p.reader.failed@ == reader.failed@,
             // sizes that are not whole pages / zero / page size out of range are refused (before allocating)
             Err(_) => true },
+//@body_start
+        proof { const_max_page_size(); }
 //@stmt 0 before let pages = phy_file_size / page_size
         proof {
             let ps = page_size as int; let sz = phy_file_size as int;
@@ -147,7 +151,11 @@ impl PagedReader {
                 Ok(_) => final(self).offset % 4 == 0 && final(self).offset >= old(self).offset && final(self).offset - old(self).offset < 4,
                 Err(_) => final(self).offset == old(self).offset },
 //@body_start
-        proof { assert(self.pages * (self.page_size - 4) <= self.pages * self.page_size) by (nonlinear_arith) requires self.pages >= 0, self.page_size > 4; }
+        proof {
+            assert(self.pages * (self.page_size - 4) <= self.pages * self.page_size) by (nonlinear_arith) requires self.pages >= 0, self.page_size > 4;
+            // the same alignment written with a mask (x & 3) instead of a remainder (x % 4): equal for every u64
+            assert forall|x: u64| #[trigger] (x & 3) == x % 4 by { assert(x & 3 == x % 4) by (bit_vector); }
+        }
 //@endfn
 
 //@fn src/paged_reader.rs PagedReader read trait=Read serves=C11,C07,C17,C16,C08,C09,C06 ret=r
@@ -178,6 +186,15 @@ impl PagedReader {
                     && (final(self).reader.failed@
                         || !sealedn(pagen(old(self).reader.data@, old(self).page_size as int, old(self).offset as int / (old(self).page_size - 4)), old(self).page_size as int)),
             }
+//@body_start
+        proof {
+            // page arithmetic spelled out once, free of local names: the in-page offset written as a remainder or as offset - page * payload
+            let pay0 = (old(self).page_size - 4) as int; let o0 = old(self).offset as int;
+            vstd::arithmetic::div_mod::lemma_fundamental_div_mod(o0, pay0);
+            vstd::arithmetic::div_mod::lemma_mod_bound(o0, pay0);
+            assert(pay0 * (o0 / pay0) == (o0 / pay0) * pay0) by (nonlinear_arith);
+            assert(o0 - (o0 / pay0) * pay0 == o0 % pay0);
+        }
 //@stmt 0 after let read_size = usize::min
         proof {
             let pay = (self.page_size - 4) as int;
